@@ -367,6 +367,14 @@ inductive ArrPol where
 
 def isNilNode (n : Node) : Bool := match n.body with | .prim "nil" _ => true | _ => false
 def isSubNode (n : Node) : Bool := match n.body with | .sub .. => true | _ => false
+def isDynNode (n : Node) : Bool := match n.body with | .prim "dyn" _ => true | _ => false
+
+/-- mergeValues asks both sides for a sub-configuration: a null yields an empty one, an unevaluated expression is
+evaluated.  What happens then is the content model's business; the identity model goes on only where neither matters:
+no null, and an expression only against a plain primitive (whatever it evaluates to, the new value is stored). -/
+def unsettled (old new : Node) : Bool :=
+  isNilNode old || isNilNode new ||
+  (isDynNode old && (isSubNode new || isDynNode new)) || (isDynNode new && (isSubNode old || isDynNode old))
 
 /-- the list part under a copying policy -/
 def mergeListCopy (cf : Nat) (pol : ArrPol) (h : Heap) (to : Id) (fa : List Id) : Option Heap :=
@@ -417,7 +425,7 @@ def mergeDictH : Nat → Nat → ArrPol → Heap → Id → List (String × Id) 
         match h[o]? with
         | none => none
         | some on =>
-          if isNilNode on || isNilNode vn then none
+          if unsettled on vn then none
           else if isSubNode on && isSubNode vn then
             match mergeH n cf pol h o v with
             | none => none
@@ -442,7 +450,7 @@ def mergeIdxH : Nat → Nat → ArrPol → Heap → Id → Nat → List Id → O
         match h[o]? with
         | none => none
         | some on =>
-          if isNilNode on || isNilNode vn then none
+          if unsettled on vn then none
           else if isSubNode on && isSubNode vn then
             match mergeH n cf pol h o v with
             | none => none
